@@ -51,7 +51,9 @@ CONSTANTS Threads,     \* thread ids
           STAMPCHECK,  \* help_transfer compares the stamp bits of size_ctl (fix b4617bf)
           ACSTAMPCHECK, \* add_count does so too before joining a resize (fix for finding F7)
           TRAVOFF,     \* 0 = the traverser as written; 1 = an off-by-one in recover_state (self-test of IterWeak)
-          RETAINCHECK  \* TRUE = retain removes an entry only if its value is still the one the predicate saw
+          RETAINCHECK, \* TRUE = retain removes an entry only if its value is still the one the predicate saw
+          TT, MTC      \* TREEIFY_THRESHOLD, MIN_TREEIFY_CAPACITY: put on a list bin of >= TT nodes in a table shorter
+                       \* than MTC calls try_presize(2n) before add_count (longer tables treeify: outside this model)
 
 VARIABLES tabs, ntabs, table, nextTable, sizeCtl, transferIndex, count,
           node, nextId, lockOwner, pc, idx, loc,
@@ -81,6 +83,7 @@ Keep(f, k) == CASE f = "all" -> TRUE [] f = "none" -> FALSE [] f = "even" -> k %
 L0 == [tb |-> 0, b |-> NULL, p |-> NULL, i |-> 0, bound |-> 0, adv |-> FALSE, fin |-> FALSE,
        xt |-> 0, nt |-> 0, n |-> 0, sc |-> 0, c |-> 0, ret |-> "", lo |-> NULL, hi |-> NULL,
        r |-> NoRes, hint |-> FALSE, after |-> "", req |-> 0,
+       d |-> 0,                           \* the count delta of the running operation (a local of its own: c is reused by transfer)
        itb |-> 0, rk |-> 0, ov |-> 0,     \* retain: the traverser's table while replace_node runs, the judged key and value
        \* traverser (iter/traverser.rs): stack of <<table, length, index>>, prev node, candidate e
        stk |-> <<>>, prev |-> NULL, e |-> NULL, ix |-> 0, bi |-> 0, bl |-> 0, bs |-> 0]
@@ -222,7 +225,7 @@ PutCas(t) ==      \* cas_bin(null -> new node)
           /\ node' = [node EXCEPT ![nextId] = [key |-> o.k, val |-> o.v, pl |-> o.pl, tag |-> o.tag, next |-> NULL]]
           /\ tabs' = [tabs EXCEPT ![tb].bins[i] = nextId]
           /\ nextId' = nextId + 1
-          /\ SetLoc(t, [loc[t] EXCEPT !.c = 1, !.hint = TRUE,
+          /\ SetLoc(t, [loc[t] EXCEPT !.d = 1, !.hint = TRUE,
                                       !.r = IF o.op = "try_insert" THEN Res(1, o.v, 0, 0, 0, 0) ELSE NoRes])
           /\ Goto(t, "AcFetch")
           /\ Ghost(o.k, [v |-> o.v, tag |-> o.tag, pl |-> o.pl])
@@ -261,6 +264,9 @@ Lock(t) ==        \* head.lock.lock()
   /\ lockOwner' = [lockOwner EXCEPT ![loc[t].b] = t] /\ Goto(t, "Reval")
   /\ UNCHANGED <<node, nextId, loc>> /\ UnchTab /\ UnchCtl /\ UnchHist
 
+RECURSIVE Pow2AtLeast(_, _)
+Pow2AtLeast(x, p) == IF p >= x THEN p ELSE Pow2AtLeast(x, 2 * p)
+ReqCap(size) == Pow2AtLeast(size + (size \div 2) + 1, 1)
 RECURSIVE KeysOfN(_)
 KeysOfN(p) == IF p = NULL \/ p = FWD THEN {} ELSE {node[p].key} \cup KeysOfN(node[p].next)
 RECURSIVE LenOfN(_)
@@ -280,10 +286,13 @@ Reval(t) ==
      THEN /\ lockOwner' = [lockOwner EXCEPT ![b] = 0] /\ Goto(t, "LoadBin")
           /\ UNCHANGED <<node, nextId, loc>> /\ UnchTab /\ UnchCtl /\ UnchHist
      ELSE LET f == FindIn(b, NULL, o.k, 0)  hit == f[1]  pred == f[2] IN
-          CASE o.op = "insert" /\ hit # NULL ->        \* n.value.swap(new)
+          CASE o.op = "insert" /\ hit # NULL ->        \* n.value.swap(new); bin_count = position of the hit
                  /\ node' = [node EXCEPT ![hit].val = o.v, ![hit].pl = o.pl]
                  /\ lockOwner' = [lockOwner EXCEPT ![b] = 0]
-                 /\ Finish(t, Res(1, node[hit].val, 0, 0, 0, 0))
+                 /\ IF f[3] + 1 >= TT /\ TLen(tb) < MTC
+                    THEN /\ SetLoc(t, [loc[t] EXCEPT !.r = Res(1, node[hit].val, 0, 0, 0, 0), !.after = "finish", !.req = ReqCap(2 * TLen(tb))])
+                         /\ Goto(t, "PsLoadSc") /\ UNCHANGED <<res, doneOps, idx>>
+                    ELSE Finish(t, Res(1, node[hit].val, 0, 0, 0, 0))
                  /\ Ghost(o.k, [v |-> o.v, tag |-> node[hit].tag, pl |-> o.pl])
                  /\ UNCHANGED <<nextId, before, mig, pubs, fins, joins>> /\ UnchTab /\ UnchCtl
             [] o.op = "try_insert" /\ hit # NULL ->    \* Exists: nothing written
@@ -296,9 +305,10 @@ Reval(t) ==
                                          ![pred].next = nextId]
                  /\ nextId' = nextId + 1
                  /\ lockOwner' = [lockOwner EXCEPT ![b] = 0]
-                 /\ SetLoc(t, [loc[t] EXCEPT !.c = 1, !.hint = TRUE,
+                 /\ SetLoc(t, [loc[t] EXCEPT !.d = 1, !.hint = TRUE, !.after = "", !.req = ReqCap(2 * TLen(tb)),
                                              !.r = IF o.op = "try_insert" THEN Res(1, o.v, 0, 0, 0, 0) ELSE NoRes])
-                 /\ Goto(t, "AcFetch")
+                 \* bin_count = nodes in the bin before the append; an overfull bin of a short table: treeify_bin -> try_presize
+                 /\ Goto(t, IF f[3] >= TT /\ TLen(tb) < MTC THEN "PsLoadSc" ELSE "AcFetch")
                  /\ Ghost(o.k, [v |-> o.v, tag |-> o.tag, pl |-> o.pl])
                  /\ UnchTab /\ UnchCtl /\ UNCHANGED <<res, before, doneOps, idx, mig, pubs, fins, joins>>
             [] o.op \in {"remove", "remove_entry", "compute"} /\ hit = NULL ->
@@ -316,7 +326,7 @@ Reval(t) ==
                     THEN tabs' = [tabs EXCEPT ![tb].bins[i] = node[hit].next] /\ UNCHANGED node
                     ELSE node' = [node EXCEPT ![pred].next = node[hit].next] /\ UNCHANGED tabs
                  /\ lockOwner' = [lockOwner EXCEPT ![b] = 0]
-                 /\ SetLoc(t, [loc[t] EXCEPT !.c = -1, !.hint = (o.op = "compute"),
+                 /\ SetLoc(t, [loc[t] EXCEPT !.d = -1, !.hint = (o.op = "compute"),
                         !.r = IF o.op = "compute" THEN Res(0, 0, 0, 0, node[hit].val, 0)
                               ELSE Res(1, node[hit].val, IF o.op = "remove_entry" THEN node[hit].tag ELSE 0, 0, 0, 0)])
                  /\ Goto(t, "AcFetch")
@@ -327,9 +337,9 @@ Reval(t) ==
 (* ---- add_count(n, hint) --------------------------------------------------- *)
 AcFetch(t) ==     \* count.fetch_add / fetch_sub; the new count as the (fixed) code computes it
   /\ pc[t] = "AcFetch"
-  /\ count' = count + loc[t].c
+  /\ count' = count + loc[t].d
   /\ IF loc[t].hint
-     THEN SetLoc(t, [loc[t] EXCEPT !.c = count + loc[t].c]) /\ Goto(t, "AcLoadSc") /\ UNCHANGED <<res, doneOps, idx>>
+     THEN SetLoc(t, [loc[t] EXCEPT !.c = count + loc[t].d]) /\ Goto(t, "AcLoadSc") /\ UNCHANGED <<res, doneOps, idx>>
      ELSE IF CurOp(t).op \in RetainOps
      THEN SetLoc(t, [loc[t] EXCEPT !.tb = loc[t].itb]) /\ Goto(t, "ItNext") /\ UNCHANGED <<res, doneOps, idx>>   \* on with the traversal
      ELSE Finish(t, loc[t].r)
@@ -568,16 +578,18 @@ XStoreSc(t) ==    \* size_ctl.store(1.5 n)
 (* (o.pl = additional).  try_presize loops: give up while a resize / initialisation is running   *)
 (* (size_ctl < 0); allocate the table if there is none; stop when the threshold already covers   *)
 (* the request; otherwise start a resize of the current table and look again.                    *)
-RECURSIVE Pow2AtLeast(_, _)
-Pow2AtLeast(x, p) == IF p >= x THEN p ELSE Pow2AtLeast(x, 2 * p)
-ReqCap(size) == Pow2AtLeast(size + (size \div 2) + 1, 1)
 RsLoadCnt(t) ==   \* len(): count.load (negative transient counts read as 0)
   /\ pc[t] = "LoadTable" /\ CurOp(t).op = "reserve"
   /\ SetLoc(t, [loc[t] EXCEPT !.req = ReqCap((IF count > 0 THEN count ELSE 0) + CurOp(t).pl)]) /\ Goto(t, "PsLoadSc")
   /\ UnchHeap /\ UnchTab /\ UnchCtl /\ UnchHist
+\* try_presize returns: to reserve's caller, to put's "Replaced" return, or on to put's add_count
+PsExit(t) ==
+  IF CurOp(t).op = "reserve" THEN Finish(t, NoRes)
+  ELSE IF loc[t].after = "finish" THEN Finish(t, loc[t].r)
+  ELSE Goto(t, "AcFetch") /\ UNCHANGED <<loc, res, doneOps, idx>>
 PsLoadSc(t) ==
   /\ pc[t] = "PsLoadSc"
-  /\ IF sizeCtl < 0 THEN Finish(t, NoRes)
+  /\ IF sizeCtl < 0 THEN PsExit(t)
      ELSE SetLoc(t, [loc[t] EXCEPT !.sc = sizeCtl]) /\ Goto(t, "PsLoadTable") /\ UNCHANGED <<res, doneOps, idx>>
   /\ UnchHeap /\ UnchTab /\ UnchCtl /\ UNCHANGED before /\ UnchRz
 PsLoadTable(t) ==
@@ -586,7 +598,7 @@ PsLoadTable(t) ==
      IF table = 0
      THEN SetLoc(t, [l EXCEPT !.xt = 0]) /\ Goto(t, "PsCasInit") /\ UNCHANGED <<res, doneOps, idx>>
      ELSE IF l.req <= l.sc \/ ntabs >= MaxTabs
-          THEN Finish(t, NoRes)
+          THEN PsExit(t)
           ELSE SetLoc(t, [l EXCEPT !.xt = table, !.n = TLen(table)]) /\ Goto(t, "PsRecheck") /\ UNCHANGED <<res, doneOps, idx>>
   /\ UnchHeap /\ UnchTab /\ UnchCtl /\ UNCHANGED before /\ UnchRz
 PsCasInit(t) ==   \* size_ctl.compare_exchange(sc, -1)
@@ -637,14 +649,14 @@ GhostAll(ks, am, it) ==     \* remove every key of ks from the ghost contents
 ClrLoadTable(t) ==
   /\ pc[t] = "LoadTable" /\ CurOp(t).op = "clear"
   /\ IF table = 0 THEN Finish(t, NoRes)
-     ELSE SetLoc(t, [loc[t] EXCEPT !.tb = table, !.ix = 0, !.c = 0]) /\ Goto(t, "ClrLoadBin") /\ UNCHANGED <<res, doneOps, idx>>
+     ELSE SetLoc(t, [loc[t] EXCEPT !.tb = table, !.ix = 0, !.d = 0]) /\ Goto(t, "ClrLoadBin") /\ UNCHANGED <<res, doneOps, idx>>
   /\ UnchHeap /\ UnchTab /\ UnchCtl /\ UNCHANGED before /\ UnchRz
 ClrLoadBin(t) ==
   /\ pc[t] = "ClrLoadBin"
   /\ LET l == loc[t] IN
      IF l.ix >= TLen(l.tb)
      THEN \* done: add_count(delta, None) if anything was removed
-          IF l.c = 0 THEN Finish(t, NoRes)
+          IF l.d = 0 THEN Finish(t, NoRes)
           ELSE SetLoc(t, [l EXCEPT !.hint = FALSE, !.r = NoRes]) /\ Goto(t, "AcFetch") /\ UNCHANGED <<res, doneOps, idx>>
      ELSE LET b == tabs[l.tb].bins[l.ix] IN
           /\ UNCHANGED <<res, doneOps, idx>>
@@ -666,7 +678,7 @@ ClrReval(t) ==    \* still the head? store_bin(idx, null); unlock; (walk and ret
           /\ tabs' = [tabs EXCEPT ![l.tb].bins[l.ix] = NULL]
           /\ lockOwner' = [lockOwner EXCEPT ![b] = 0]
           /\ amap' = g[1] /\ ith' = g[2]
-          /\ SetLoc(t, [l EXCEPT !.c = l.c - LenOfN(b), !.ix = l.ix + 1]) /\ Goto(t, "ClrLoadBin")
+          /\ SetLoc(t, [l EXCEPT !.d = l.d - LenOfN(b), !.ix = l.ix + 1]) /\ Goto(t, "ClrLoadBin")
   /\ UNCHANGED <<ntabs, table, nextTable, node, nextId, res, before, doneOps, idx, mig, pubs, fins, joins>> /\ UnchCtl
 
 (* ---- iterators: NodeIter (iter/traverser.rs) -------------------------------- *)
@@ -759,7 +771,7 @@ RtReval(t) ==     \* still the head? find the key; remove it if (retain) its val
                   THEN tabs' = [tabs EXCEPT ![tb].bins[i] = node[hit].next] /\ UNCHANGED node
                   ELSE node' = [node EXCEPT ![pred].next = node[hit].next] /\ UNCHANGED tabs
                /\ lockOwner' = [lockOwner EXCEPT ![b] = 0]
-               /\ SetLoc(t, [l EXCEPT !.c = -1, !.hint = FALSE]) /\ Goto(t, "AcFetch")
+               /\ SetLoc(t, [l EXCEPT !.d = -1, !.hint = FALSE]) /\ Goto(t, "AcFetch")
                /\ amap' = [amap EXCEPT ![k] = Absent]
                /\ ith' = [u \in Threads |->
                             IF u = t THEN [ith[u] EXCEPT !.touched = @ \cup {k}, !.rm = @ \cup {<<k, node[hit].val, o.f, o.op = "retain_force">>}]
